@@ -40,6 +40,12 @@ def parseEntries (s : String) : Option (List Entry) :=
     not exceed the input's line count + 1 / longest line + 1). -/
 def errPosInBounds (src : Bytes) (err : Bytes) : Bool :=
   let txt := String.ofList (err.map fun c => Char.ofNat c.toNat)
+  -- the structured position, when the error is a parse error: inside the input, line and column agreeing with the index
+  let structured : Bool :=
+    match (txt.splitOn " @@").getLast?.bind (fun t => if (txt.splitOn " @@").length < 2 then none else parsePos t) with
+    | some p => p.index ≤ src.length && decide (positionAt src p.index = p)
+    | none => true
+  structured &&
   match (txt.splitOn "line ").getLast? with
   | none => true
   | some tail =>
